@@ -109,6 +109,7 @@ def plan(tier, seed):
         for gi in range(len(GARBAGE[sec]) + 1):
             shards.append(("ins", sec, gi, mult))
     shards.append(("song", mult))
+    shards += [("runs", sec) for sec in ("sync", "events", "track")]
     shards.append(("pairs", mult))
     shards.append(("disjoint",))
     shards.append(("long",))
@@ -256,6 +257,20 @@ def run_shard(shard, ctx):
         return _conservation(ctx)
     if shard[0] == "song":
         return _song(ctx, shard[1])
+    if shard[0] == "runs":
+        # multiplicity as a SCALE: uninterrupted runs of 47..300 unparsable lines (every one is reported), also two
+        # runs separated by one valid line
+        sec = shard[1]
+        base = BASE[sec]
+        base_text = text_with(sec, base)
+        o0, w0 = run(base_text)
+        for g in GARBAGE[sec][1:4] + BRACES[:2] + LENIENT[sec][:1]:
+            for n in (47, 48, 49, 50, 64, 65, 100, 128, 129, 257, 300):
+                for pos in (0, 2, len(base)):
+                    ctx.node()
+                    check(ctx, sec, base[:pos] + [g] * n + base[pos:], n, base_text, o0, w0, "%s section, a run of %d lines %r at position %d" % (sec, n, g, pos))
+                check(ctx, sec, base[:1] + [g] * n + base[1:3] + [g] * (n + 1) + base[3:], 2 * n + 1, base_text, o0, w0, "%s section, runs of %d and %d lines %r" % (sec, n, n + 1, g))
+        return
     base_text = text_with("sync", BASE["sync"])
     o0, w0 = run(base_text)
     if shard[0] == "ins":
